@@ -423,6 +423,21 @@ func (c *Ctx) signEFIVariableRules() {
 		sl := dv.sliceDeep(certData.v, certData.fr)
 		if len(ir.CallsIn(sl, M+"/pkcs7.ParseContentInfo")) == 0 || !sl[sign] {
 			bad = append(bad, "CertData is not the SignPKCS7 result with the outer ContentInfo stripped (ParseContentInfo)")
+		} else {
+			// exactly the content the parser returned: a bare SignedData, nothing appended
+			for _, pc := range ir.CallsIn(sl, M+"/pkcs7.ParseContentInfo") {
+				for _, r := range *pc.Referrers() {
+					if ex, ok := r.(*ssa.Extract); ok && ex.Index == 1 {
+						for _, di := range dv.order {
+							if di.i == ssa.Instruction(ex) {
+								if exact, decided := dv.exactBytes(certData.v, certData.fr, dval{ex, di.fr}, 0); decided && !exact {
+									bad = append(bad, "CertData is built from the stripped SignedData but is not exactly it (bytes are added or removed)")
+								}
+							}
+						}
+					}
+				}
+			}
 		}
 	}
 	okLen := false
